@@ -28,6 +28,22 @@ CHECKS = {
  },
 }
 
+CHECKS["C04"] = {
+  "text": "Receive side (OutOfOrderQueue + MsgQueue + UserRx + read half) modelled as one state machine; theorems over EVERY "
+          "op list (any arrival order, duplicates, beyond-window, after FIN, any reader behaviour, any capacity): accounting "
+          "invariant (no unwrap/index panic), the ack counter advances by exactly the returned count and never moves back, the "
+          "slot after the acknowledged prefix is a hole (ack = highest in-order), SACK bit i <-> slot filled_front+1+i occupied, "
+          "SACK absent iff nothing held out of order, advertised window <= free space of the configured buffer, in-order stream only "
+          "grows by appending and reads return its next bytes (no discard). Tied to the real UserRx/UtpStreamReadHalf by differential "
+          "op-list runs comparing every observer, waker registrations and wake-ups; the extracted predicate c04_ok (proved true of every "
+          "model trace) is evaluated on the implementation's traces.",
+  "design_ref": "DESIGN.md section 6 C04",
+  "note": "Trusted: Coq kernel, hand-written model, extraction, drivers, generators; atomicity of each locked method. No axioms. "
+          "Partial: the dispatcher-side use (ack_nr/wnd_size/SACK of emitted packets computed from this state, rounding to MSS) is "
+          "covered at the connection level, not by this component check.",
+  "technique": "Coq proof (invariant by induction over op lists) + differential correspondence",
+}
+
 ALL = ["C%02d" % i for i in range(1, 20)]
 NOT_APPLICABLE = {p: "check not built yet at this commit (planned: DESIGN.md section 6); not claimed"
                   for p in ALL if p not in CHECKS}
